@@ -357,7 +357,7 @@ func kindRn3(c *hlib.Ctx) {
 
 // jitter3 splits vertices of a closed manifold on the 1/8 grid into near-duplicates.
 func jitter3(c *hlib.Ctx, s *soup3, eps float64) string {
-	mode := c.Rng.Intn(4)
+	mode := c.Rng.Intn(6)
 	amp := eps / 4
 	label := "jitter<eps/4"
 	if mode == 2 {
@@ -368,6 +368,10 @@ func jitter3(c *hlib.Ctx, s *soup3, eps float64) string {
 		return "undamaged"
 	}
 	p := 0.2 + 0.6*c.Rng.Float64()
+	if mode >= 4 {
+		// chains only
+		mode, p, label = 1, 0, "no-jitter"
+	}
 	for i := range s.faces {
 		for k := 0; k < 3; k++ {
 			if c.Rng.Float64() < p {
@@ -383,21 +387,44 @@ func jitter3(c *hlib.Ctx, s *soup3, eps float64) string {
 		}
 	}
 	if mode == 1 && len(s.faces) > 0 {
-		// a chain of near-duplicates 0.9*eps apart around one vertex
+		// chains of near-duplicates 0.9*eps apart (consecutive copies share a grid hash, copies two
+		// steps apart share none) around many vertices, along any axis and in both directions: the
+		// merge has to be transitive whatever the order in which the map hands out the copies
 		label += "+chain"
-		f := s.faces[c.Rng.Intn(len(s.faces))]
-		v := f[0]
-		o := s.coords[v]
-		step := 0
-		for i := range s.faces {
-			for k := 0; k < 3; k++ {
-				if s.faces[i][k] == v {
-					s.coords = append(s.coords, o.Add(model3d.X(0.9*eps*float64(step))))
-					s.faces[i][k] = len(s.coords) - 1
-					step++
+		nv := len(s.coords)
+		all := c.Rng.Intn(2) == 0
+		forced := s.faces[c.Rng.Intn(len(s.faces))][0]
+		chains := 0
+		for v := 0; v < nv; v++ {
+			if v != forced && !all && c.Rng.Intn(3) != 0 {
+				continue
+			}
+			o := s.coords[v]
+			if o.X*8 != math.Floor(o.X*8) || o.Y*8 != math.Floor(o.Y*8) || o.Z*8 != math.Floor(o.Z*8) {
+				continue // already a jittered copy
+			}
+			d := []model3d.Coord3D{model3d.X(1), model3d.Y(1), model3d.Z(1)}[c.Rng.Intn(3)]
+			if c.Rng.Intn(2) == 0 {
+				d = d.Scale(-1)
+			}
+			// the first use keeps the original; the others go to alternating sides: 0, +1, -1, +2, ...
+			step := 0
+			for i := range s.faces {
+				for k := 0; k < 3; k++ {
+					if s.faces[i][k] == v {
+						off := float64((step + 1) / 2)
+						if step%2 == 0 {
+							off = -off
+						}
+						s.coords = append(s.coords, o.Add(d.Scale(0.9*eps*off)))
+						s.faces[i][k] = len(s.coords) - 1
+						step++
+					}
 				}
 			}
+			chains++
 		}
+		c.Stat("rep3:chained-vertices", chains)
 	}
 	return label
 }
